@@ -17,7 +17,15 @@ import (
 // Rand is SplitMix64; every random choice of an engine derives from one of these.
 type Rand struct{ s uint64 }
 
-func NewRand(seed uint64) *Rand { return &Rand{s: seed*0x9E3779B97F4A7C15 + 0x1234567} }
+// NewRand scrambles the seed first: the SplitMix64 state advances by a constant per draw, so
+// un-scrambled consecutive seeds would yield the same stream shifted by one draw.
+func NewRand(seed uint64) *Rand {
+	z := seed + 0x632BE59BD9B4E019
+	z = (z ^ (z >> 30)) * 0xBF58476D1CE4E5B9
+	z = (z ^ (z >> 27)) * 0x94D049BB133111EB
+	z ^= z >> 31
+	return &Rand{s: z*0x9E3779B97F4A7C15 + 0x1234567}
+}
 
 // CaseRand gives the PRNG of case idx of a run with the given seed (so a case replays alone).
 func CaseRand(seed int64, idx int) *Rand {
